@@ -7,6 +7,7 @@ package main
 // MAC and segments are computed under it must not be accepted.
 
 import (
+	"go/token"
 	"go/types"
 
 	"golang.org/x/tools/go/ssa"
@@ -119,6 +120,65 @@ func c02CheckKeyProvenance(p *Prog, r *Report, ro *c02Roles) {
 		return false
 	}
 
+	// An undecided branch on *derived* state — a flag, a nil-or-set variable, a value merged from several places — that
+	// was computed from the outcome of the unwrap means the explorer lost the correlation: a path through it is not
+	// positively established. Direct tests of what UnwrapKeyFn returned (its error, the length of its key) are inputs.
+	derivedFromUnwrap := func(cond ssa.Value) bool {
+		var operands []ssa.Value
+		var collect func(v ssa.Value, depth int)
+		collect = func(v ssa.Value, depth int) {
+			if depth > 4 {
+				return
+			}
+			switch x := v.(type) {
+			case *ssa.UnOp:
+				if x.Op == token.NOT {
+					collect(x.X, depth+1)
+					return
+				}
+			case *ssa.BinOp:
+				collect(x.X, depth+1)
+				collect(x.Y, depth+1)
+				return
+			case *ssa.Convert:
+				collect(x.X, depth+1)
+				return
+			case *ssa.Call:
+				if n := builtinName(x); n == "len" || n == "cap" {
+					collect(x.Call.Args[0], depth+1)
+					return
+				}
+			}
+			operands = append(operands, v)
+		}
+		collect(cond, 0)
+		for _, op := range operands {
+			if _, isC := op.(*ssa.Const); isC {
+				continue
+			}
+			direct := false
+			for _, u := range unwraps {
+				if op == ssa.Value(u) {
+					direct = true
+				}
+				for i := 0; i < 2; i++ {
+					if res := callResult(u, i); res != nil && op == res {
+						direct = true
+					}
+				}
+			}
+			if direct {
+				continue
+			}
+			sl := c02BackSlice(op)
+			for _, u := range unwraps {
+				if sl[u] {
+					return true
+				}
+			}
+		}
+		return false
+	}
 	report := func(construct, okMsg, badMsg string, hits []c02Hit, exhausted, sawUnwrap bool, without []string) {
 		switch {
 		case !exhausted:
@@ -144,6 +204,7 @@ func c02CheckKeyProvenance(p *Prog, r *Report, ro *c02Roles) {
 		var without []string
 		hits, ex := c02ExploreX(entry.Blocks[0], 0, &c02Env{bind: map[ssa.Value]ssa.Value{}, known: map[ssa.Value]bool{}}, &c02XOpts{
 			MaxDepth: 4,
+			Opaque:   derivedFromUnwrap,
 			Visit: func(in ssa.Instruction, env *c02Env) c02Action {
 				if u := isUnwrap(in); u != nil {
 					sawUnwrap = true
@@ -173,6 +234,7 @@ func c02CheckKeyProvenance(p *Prog, r *Report, ro *c02Roles) {
 		var without []string
 		hits, ex := c02ExploreX(entry.Blocks[0], 0, &c02Env{bind: map[ssa.Value]ssa.Value{}, known: map[ssa.Value]bool{}}, &c02XOpts{
 			MaxDepth: 4,
+			Opaque:   derivedFromUnwrap,
 			Visit: func(in ssa.Instruction, env *c02Env) c02Action {
 				if u := isUnwrap(in); u != nil {
 					sawUnwrap = true
